@@ -38,6 +38,53 @@ func findExternal(fn *ssa.Function) externalFn {
 	if e, ok := externals[full]; ok {
 		return e
 	}
+	if strings.HasPrefix(full, "(*sync/atomic.Pointer[") {
+		if k := strings.IndexByte(name, '['); k >= 0 {
+			name = name[:k]
+		}
+		switch name {
+		case "Load":
+			return func(fr *frame, args []value) value {
+				c := &(*fr.i.derefPtr(args[0])).(structure)[2]
+				if p, ok := (*c).(*value); ok {
+					return p
+				}
+				return (*value)(nil)
+			}
+		case "Store":
+			return func(fr *frame, args []value) value {
+				c := &(*fr.i.derefPtr(args[0])).(structure)[2]
+				fr.i.logStore(c)
+				*c = args[1]
+				return nil
+			}
+		case "Swap":
+			return func(fr *frame, args []value) value {
+				c := &(*fr.i.derefPtr(args[0])).(structure)[2]
+				old, ok := (*c).(*value)
+				if !ok {
+					old = nil
+				}
+				fr.i.logStore(c)
+				*c = args[1]
+				return old
+			}
+		case "CompareAndSwap":
+			return func(fr *frame, args []value) value {
+				c := &(*fr.i.derefPtr(args[0])).(structure)[2]
+				cur, ok := (*c).(*value)
+				if !ok {
+					cur = nil
+				}
+				if cur == args[1].(*value) {
+					fr.i.logStore(c)
+					*c = args[2]
+					return true
+				}
+				return false
+			}
+		}
+	}
 	if o := fn.Origin(); o != nil && o != fn {
 		if e, ok := externals[o.String()]; ok {
 			return e
@@ -190,6 +237,8 @@ func init() {
 			setBuilderBuf(fr.i, args[0], res)
 			return tuple{len(res) - n0, iface{}}
 		},
+		"internal/stringslite.Clone": func(fr *frame, args []value) value { return args[0] },
+		"strings.Clone":              func(fr *frame, args []value) value { return args[0] },
 		"unsafe.String":     nil,
 		"unsafe.StringData": nil,
 
@@ -567,7 +616,7 @@ func fmtArg(fr *frame, verb byte, flags string, a value) value {
 	// error / Stringer
 	if verb == 'v' || verb == 's' || verb == 'q' {
 		for _, mname := range []string{"Error", "String"} {
-			if m := i.prog.LookupMethod(itf.t, nil, mname); m != nil && m.Signature.Params().Len() == 0 && m.Signature.Results().Len() == 1 {
+			if m := i.findMethod(itf.t, mname); m != nil && m.Signature.Params().Len() == 0 && m.Signature.Results().Len() == 1 {
 				if b, ok := m.Signature.Results().At(0).Type().Underlying().(*types.Basic); ok && b.Kind() == types.String {
 					if p, isPtr := itf.v.(*value); isPtr && p == nil {
 						return "<nil>"
@@ -807,7 +856,7 @@ func writeTo(fr *frame, w value, s value) value {
 	if strings.HasSuffix(itf.t.String(), "os.File") {
 		return tuple{n, iface{}}
 	}
-	m := i.prog.LookupMethod(itf.t, nil, "Write")
+	m := i.findMethod(itf.t, "Write")
 	if m == nil {
 		i.unsupported("writeTo: no Write method on %s", itf.t)
 	}
@@ -834,12 +883,12 @@ func extErrorsIs(fr *frame, args []value) value {
 				return true
 			}
 		}
-		if m := i.prog.LookupMethod(err.t, nil, "Is"); m != nil && m.Signature.Params().Len() == 1 {
+		if m := i.findMethod(err.t, "Is"); m != nil && m.Signature.Params().Len() == 1 {
 			if i.truth(callSSA(i, fr, token.NoPos, m, []value{err.v, target}, nil)) {
 				return true
 			}
 		}
-		m := i.prog.LookupMethod(err.t, nil, "Unwrap")
+		m := i.findMethod(err.t, "Unwrap")
 		if m == nil || m.Signature.Results().Len() != 1 {
 			return false
 		}
@@ -880,4 +929,13 @@ func extSortSlice(fr *frame, args []value) value {
 		}
 	}
 	return nil
+}
+
+// findMethod returns the exported method name of type t, or nil.
+func (i *interpreter) findMethod(t types.Type, name string) *ssa.Function {
+	sel := i.prog.MethodSets.MethodSet(t).Lookup(nil, name)
+	if sel == nil {
+		return nil
+	}
+	return i.prog.MethodValue(sel)
 }
